@@ -27,7 +27,7 @@
 (*   realized_sticky           Parameter._realized is never reset: a second build registers none *)
 EXTENDS Integers, Sequences, FiniteSets, TLC, Json
 
-CONSTANTS Deviations, MaxObjs, MinObjs, MaxKids, ListPolicies, SeqPolicies, SubPolicy
+CONSTANTS Deviations, MaxObjs, MinObjs, MaxKids, ExplicitNames, ListPolicies, SeqPolicies, SubPolicy
 VARIABLES objs, hist, stage, out
 vars == <<objs, hist, stage, out>>
 
@@ -202,7 +202,7 @@ Finish(pol) ==
 
 Init == /\ objs \in {<<Obj("M", "root")>>, <<Obj("M", NONE)>>, <<Obj("S", NONE)>>}
         /\ hist = <<>> /\ stage = "build" /\ out = [why |-> {}]
-Next == \/ \E k \in {"M", "L", "S"} : \E nm \in {NONE, "a"} : New(k, nm)
+Next == \/ \E k \in {"M", "L", "S"} : \E nm \in {NONE} \cup ExplicitNames : New(k, nm)
         \/ \E p \in 1..N : \E c \in 2..N : \E a \in Attrs : SetAttr(p, a, c)
         \/ \E l \in 1..N : \E c \in 2..N : Append_(l, c)
         \/ \E pol \in Policies : Finish(pol)
